@@ -109,7 +109,8 @@ def catchall_keys_map(t):
 
 def improper_empty_key(t):
     """a map one of whose keys contains an improper list without elements: such a key orders as a list in memory
-    but travels (and comes back) as its tail, so the key order changes across the wire"""
+    but travels (and comes back) as its tail, so the key order changes across the wire (and it may collide with a
+    key that is that tail)"""
     return t[0] == "m" and any(contains(k, lambda x: x[0] == "L" and not x[1]) for k, _ in t[1])
 
 
@@ -145,6 +146,8 @@ def oracle(case, impl):
     except Exception as ex:  # noqa
         return ("violation", "the encoded bytes are not valid External Term Format: %s" % ex)
     if sv != v:
+        if contains(tin, improper_empty_key) and "map-dupkeys" in repr(sv):
+            return ("known", "C01-improper-empty-key")   # key `x` and key ImproperList{[], x} coexist in memory, collide on the wire
         return ("violation", "an independent reader sees a different value in the encoded bytes")
     dec = f.get("dec", "")
     if dec.startswith("err:"):
